@@ -102,6 +102,17 @@ func featsOf(evs []model.Ev) map[string]bool {
 			}
 		}
 		if e.IsExt() {
+			for _, x := range e.E {
+				if isNonFiniteEv(x) {
+					f["nonfinite"] = true
+				}
+				if x.K == model.KF32 || x.K == model.KF64 {
+					f["float"] = true
+				}
+				if (x.K == model.KU64 || x.K == model.KUint) && x.U > 1<<63-1 {
+					f["biguint"] = true
+				}
+			}
 			f["ext"] = true
 			if len(e.E) == 0 && len(e.S) == 0 {
 				f["extempty"] = true
